@@ -127,3 +127,21 @@ Proof.
 Qed.
 Lemma absent_values_pass : init_cutoff None None None = Ok (None, None).
 Proof. reflexivity. Qed.
+
+(* ---- non-finite values: nan and the infinities fail the positivity test, so they are configuration errors wherever given;
+        conversely a value that passes is finite and strictly positive *)
+Lemma le0_nonfinite : le0 (B754_nan : b64) = true /\ le0 (B754_infinity false : b64) = true /\ le0 (B754_infinity true : b64) = true /\ le0 bzero = true.
+Proof. repeat split; reflexivity. Qed.
+Lemma le0_false_finite_pos (x : b64) : le0 x = false -> is_finite x = true /\ (0 < B2R x)%R.
+Proof.
+  unfold le0. intro H. apply Bool.negb_false_iff, Bool.andb_true_iff in H. destruct H as [H1 H2].
+  destruct x as [s|s| |s m e He]; try (destruct s; discriminate); try discriminate.
+  split; [reflexivity|]. destruct s; [discriminate|]. unfold B2R. apply Float_prop.F2R_gt_0. simpl. lia.
+Qed.
+Lemma nonfinite_rejected nr dr cutoff s :
+  init_cutoff nr (Some (B754_nan : b64)) cutoff = CfgErr /\ init_cutoff nr (Some (B754_infinity s : b64)) cutoff = CfgErr /\
+  init_cutoff nr dr (Some (B754_nan : b64)) = CfgErr /\ init_cutoff nr dr (Some (B754_infinity s : b64)) = CfgErr.
+Proof.
+  repeat split; [apply nonpositive_dr_rejected|apply nonpositive_dr_rejected|apply nonpositive_cutoff_rejected|apply nonpositive_cutoff_rejected];
+    try reflexivity; destruct s; reflexivity.
+Qed.
